@@ -111,13 +111,14 @@ pub fn killed_map_insert(pid: i32, sig: i32, Tracked(k): Tracked<&mut Kernel>)
 { unimplemented!() }
 #[verifier::external_body]
 pub fn insert_stopped_map(pid: i32, Tracked(k): Tracked<&mut Kernel>)
-    ensures final(k).stop == old(k).stop.insert(pid as int),
-        final(k).reap == old(k).reap && final(k).kill == old(k).kill && final(k).cont == old(k).cont && final(k).delivered == old(k).delivered,
+    // (signals.rs: the latest stop / continue event of a process decides: recording one removes the opposite entry)
+    ensures final(k).stop == old(k).stop.insert(pid as int), final(k).cont == old(k).cont.remove(pid as int),
+        final(k).reap == old(k).reap && final(k).kill == old(k).kill && final(k).delivered == old(k).delivered,
 { unimplemented!() }
 #[verifier::external_body]
 pub fn insert_cont_map(pid: i32, Tracked(k): Tracked<&mut Kernel>)
-    ensures final(k).cont == old(k).cont.insert(pid as int),
-        final(k).reap == old(k).reap && final(k).kill == old(k).kill && final(k).stop == old(k).stop && final(k).delivered == old(k).delivered,
+    ensures final(k).cont == old(k).cont.insert(pid as int), final(k).stop == old(k).stop.remove(pid as int),
+        final(k).reap == old(k).reap && final(k).kill == old(k).kill && final(k).delivered == old(k).delivered,
 { unimplemented!() }
 // prints the job line on stderr (I/O only)
 #[verifier::external_body]
@@ -138,6 +139,32 @@ pub open spec fn parked(k: Kernel, w: WaitStatus) -> bool {
     && (w.1 == 1 ==> k.kill.contains_key(w.0 as int))
     && (w.1 == 2 ==> k.stop.contains(w.0 as int))
     && (w.1 == 3 ==> k.cont.contains(w.0 as int))
+}
+// a stop / continue event is superseded by a later stop / continue event of the same process: the latest one decides (signals.rs keeps one entry per process)
+pub open spec fn superseded(d: Seq<WaitStatus>, i: int, n: int) -> bool {
+    exists|j: int| i < j < n && (#[trigger] d[j]).0 == d[i].0 && (d[j].1 == 2 || d[j].1 == 3)
+}
+pub proof fn lemma_superseded_push(d: Seq<WaitStatus>, w: WaitStatus, i: int)
+    requires 0 <= i < d.len()
+    ensures superseded(d.push(w), i, (d.len() + 1) as int) == (superseded(d, i, d.len() as int) || (w.0 == d[i].0 && (w.1 == 2 || w.1 == 3))),
+        !superseded(d.push(w), d.len() as int, (d.len() + 1) as int),
+{
+    let d2 = d.push(w);
+    if superseded(d, i, d.len() as int) {
+        let j = choose|j: int| i < j < d.len() && (#[trigger] d[j]).0 == d[i].0 && (d[j].1 == 2 || d[j].1 == 3);
+        assert(d2[j] == d[j]); assert(d2[i] == d[i]);
+    }
+    if w.0 == d[i].0 && (w.1 == 2 || w.1 == 3) { assert(d2[d.len() as int] == w); assert(d2[i] == d[i]); }
+    if superseded(d2, i, (d.len() + 1) as int) {
+        let j = choose|j: int| i < j < d.len() + 1 && (#[trigger] d2[j]).0 == d2[i].0 && (d2[j].1 == 2 || d2[j].1 == 3);
+        assert(d2[i] == d[i]);
+        if j < d.len() { assert(d2[j] == d[j]); } else { assert(d2[j] == w); }
+    }
+}
+// what the poll will find for the i-th event: exits and kills are all kept; of the stops and continues of a process the latest one, and no stale opposite entry next to it
+pub open spec fn kept(k: Kernel, d: Seq<WaitStatus>, i: int, n: int) -> bool {
+    (d[i].1 <= 1 ==> parked(k, d[i]))
+    && (d[i].1 >= 2 && !superseded(d, i, n) ==> parked(k, d[i]) && (d[i].1 == 2 ==> !k.cont.contains(d[i].0 as int)) && (d[i].1 == 3 ==> !k.stop.contains(d[i].0 as int)))
 }
 // status reported by the latest non-continue event of `pid` among delivered[from..n]
 pub open spec fn last_status(d: Seq<WaitStatus>, from: int, n: int, pid: i32, dflt: int) -> int
@@ -219,6 +246,55 @@ impl CommandResult {
 //@FN CommandResult::from_status
 }
 //@FN wait_fg_job
+// ---- the prompt-time poll (jobc::try_wait_bg_jobs): every member of every job is looked at, and the first parked entry it has is taken and applied ----
+#[verifier::external_body]
+pub fn pop_reap_map(pid: i32, Tracked(k): Tracked<&mut Kernel>) -> (r: Option<i32>)
+    ensures r.is_some() == old(k).reap.contains_key(pid as int), final(k).reap == old(k).reap.remove(pid as int),
+        final(k).kill == old(k).kill && final(k).stop == old(k).stop && final(k).cont == old(k).cont && final(k).delivered == old(k).delivered,
+{ unimplemented!() }
+#[verifier::external_body]
+pub fn killed_map_pop(pid: i32, Tracked(k): Tracked<&mut Kernel>) -> (r: Option<i32>)
+    ensures r.is_some() == old(k).kill.contains_key(pid as int), final(k).kill == old(k).kill.remove(pid as int),
+        final(k).reap == old(k).reap && final(k).stop == old(k).stop && final(k).cont == old(k).cont && final(k).delivered == old(k).delivered,
+{ unimplemented!() }
+#[verifier::external_body]
+pub fn pop_stopped_map(pid: i32, Tracked(k): Tracked<&mut Kernel>) -> (r: bool)
+    ensures r == old(k).stop.contains(pid as int), final(k).stop == old(k).stop.remove(pid as int),
+        final(k).reap == old(k).reap && final(k).kill == old(k).kill && final(k).cont == old(k).cont && final(k).delivered == old(k).delivered,
+{ unimplemented!() }
+#[verifier::external_body]
+pub fn pop_cont_map(pid: i32, Tracked(k): Tracked<&mut Kernel>) -> (r: bool)
+    ensures r == old(k).cont.contains(pid as int), final(k).cont == old(k).cont.remove(pid as int),
+        final(k).reap == old(k).reap && final(k).kill == old(k).kill && final(k).stop == old(k).stop && final(k).delivered == old(k).delivered,
+{ unimplemented!() }
+// signals::handle_sigchld: collects whatever child events are pending (waitpid WNOHANG loop) into the four maps: any additions
+#[verifier::external_body]
+pub fn handle_sigchld(Tracked(k): Tracked<&mut Kernel>) { unimplemented!() }
+#[verifier::external_body]
+pub fn vx_reason(sig: i32) -> (r: String) { unimplemented!() }
+#[verifier::external_body]
+pub fn vx_jobs_is_empty(m: &HashMap<i32, Job>) -> (r: bool) ensures r == (m@.dom().len() == 0) { m.is_empty() }
+#[verifier::external_body]
+pub fn vx_clone_jobs(m: &HashMap<i32, Job>) -> (r: HashMap<i32, Job>) ensures r@ == m@ { unimplemented!() }
+// HashMap iteration through a snapshot: every entry once, unspecified order
+#[verifier::external_body]
+pub fn vx_job_values(m: &HashMap<i32, Job>) -> (r: Vec<Job>)
+    ensures forall|i: int| 0 <= i < r@.len() ==> m@.contains_key((#[trigger] r@[i]).id) && m@[r@[i].id] == r@[i],
+        forall|x: i32| m@.contains_key(x) ==> exists|i: int| 0 <= i < r@.len() && (#[trigger] r@[i]).id == x
+{ unimplemented!() }
+// the maps only shrink during the poll proper
+pub open spec fn shrunk(a: Kernel, b: Kernel) -> bool {
+    (forall|x: int| b.reap.contains_key(x) ==> a.reap.contains_key(x)) && (forall|x: int| b.kill.contains_key(x) ==> a.kill.contains_key(x))
+    && (forall|x: int| b.stop.contains(x) ==> a.stop.contains(x)) && (forall|x: int| b.cont.contains(x) ==> a.cont.contains(x))
+}
+// member `pid` was looked at: the first parked entry it had (exit, kill, stop, continue -- in that order) is gone
+pub open spec fn looked_at(k1: Kernel, kf: Kernel, pid: int) -> bool {
+    if k1.reap.contains_key(pid) { !kf.reap.contains_key(pid) }
+    else if k1.kill.contains_key(pid) { !kf.kill.contains_key(pid) }
+    else if k1.stop.contains(pid) { !kf.stop.contains(pid) }
+    else { !kf.cont.contains(pid) }
+}
+//@FN try_wait_bg_jobs
 ''' + common.TAIL
 
 J = 'src/jobc.rs'
@@ -289,7 +365,11 @@ jc_member_continued = Fn(J, 'mark_job_member_continued', rewrites=RW + [Rw('unsa
              ('C06+C07.jc_member_continued.running_when_a_member_runs',
               'has_gid(old(sh).jobs@, gid) ==> exists|k: i32| old(sh).jobs@.contains_key(k) && #[trigger] old(sh).jobs@[k].gid == gid '
               '&& final(sh).jobs@.contains_key(k) && final(sh).jobs@[k].gid == gid && final(sh).jobs@[k].status@ == "Running"@ '
-              '&& !final(sh).jobs@[k].pids_stopped@.contains(pid)')])
+              '&& !final(sh).jobs@[k].pids_stopped@.contains(pid)'),
+             # ... and only that member: the shell goes on knowing which OTHER members are stopped (else the job can never become Stopped again)
+             ('C06+C07.jc_member_continued.the_other_members_keep_their_stopped_mark',
+              'forall|k: i32| old(sh).jobs@.contains_key(k) && #[trigger] old(sh).jobs@[k].gid == gid && gid != 0 && final(sh).jobs@.contains_key(k) ==> '
+              'final(sh).jobs@[k].pids_stopped@ =~= old(sh).jobs@[k].pids_stopped@.remove(pid)')])
 jc_running = Fn(J, 'mark_job_as_running', rewrites=RW,
     requires=[('C06.pre.wf', 'wf(old(sh).jobs@)')],
     ensures=[('C06+C07.jc_running.wf', 'wf(final(sh).jobs@)'), ('C06+C07.jc_running.dom', 'final(sh).jobs@.dom() == old(sh).jobs@.dom()'),
@@ -318,7 +398,7 @@ wait_fg_job = Fn(J, 'wait_fg_job', ret='r', rewrites=RW,
         ('C06+C07.wait.wf', 'wf(final(sh).jobs@)'),
         ('C06+C07.wait.no_background_event_lost',
          'forall|i: int| ' + NEW_EVENTS.replace('K', 'final(k)') + ' && !pids@.contains((#[trigger] final(k).delivered[i]).0) '
-         '&& 0 <= final(k).delivered[i].1 <= 3 && final(k).delivered[i].0 > 0 ==> parked(*final(k), final(k).delivered[i])'),
+         '&& 0 <= final(k).delivered[i].1 <= 3 && final(k).delivered[i].0 > 0 ==> kept(*final(k), final(k).delivered, i, final(k).delivered.len() as int)'),
         ('C02+C03.wait.status_is_last_stage_status',
          'pids@.len() > 0 ==> (final(k).delivered.len() > old(k).delivered.len() && fatal_error(final(k).delivered.last())) '
          '|| r.status as int == last_status(final(k).delivered, old(k).delivered.len() as int, final(k).delivered.len() as int, pids@.last(), 0)'),
@@ -337,7 +417,7 @@ wait_fg_job = Fn(J, 'wait_fg_job', ret='r', rewrites=RW,
                                 '&& forall|i: int| 0 <= i < pids@.len() ==> (#[trigger] pids@[i]) > 0'),
         ('C06+C07.inv.wait.parked',
          'forall|i: int| ' + NEW_EVENTS.replace('K', 'k') + ' && !pids@.contains((#[trigger] k.delivered[i]).0) '
-         '&& 0 <= k.delivered[i].1 <= 3 && k.delivered[i].0 > 0 ==> parked(*k, k.delivered[i])'),
+         '&& 0 <= k.delivered[i].1 <= 3 && k.delivered[i].0 > 0 ==> kept(*k, k.delivered, i, k.delivered.len() as int)'),
         ('C06+C07.inv.wait.events_valid', 'forall|i: int| ' + NEW_EVENTS.replace('K', 'k') + ' ==> ws_valid(#[trigger] k.delivered[i])'),
     ], invariant_except_break=[
         ('C02+C06+C07.inv.wait.settled_is_the_set_of_members_that_exited_or_are_stopped',
@@ -357,6 +437,10 @@ wait_fg_job = Fn(J, 'wait_fg_job', ret='r', rewrites=RW,
                                   'assert forall|p: i32| settled_at(__d0, old(k).delivered.len() as int, __d0.len() as int, p) == #[trigger] settled_at(k.delivered, old(k).delivered.len() as int, __d0.len() as int, p) by '
                                   '{ lemma_settled_ext(__d0, k.delivered, old(k).delivered.len() as int, __d0.len() as int, p); } '
                                   'assert(k.delivered.len() == __d0.len() + 1 && k.delivered[__d0.len() as int] == ws); '
+                                  'assert(k.delivered =~= __d0.push(ws)); '
+                                  'assert forall|i: int| 0 <= i < __d0.len() implies #[trigger] superseded(k.delivered, i, k.delivered.len() as int) == '
+                                  '(superseded(__d0, i, __d0.len() as int) || (ws.0 == __d0[i].0 && (ws.1 == 2 || ws.1 == 3))) by { lemma_superseded_push(__d0, ws, i); } '
+                                  'if __d0.len() > 0 { lemma_superseded_push(__d0, ws, 0); } assert(!superseded(k.delivered, __d0.len() as int, k.delivered.len() as int)); '
                                   'assert forall|p: i32| #[trigger] settled_at(k.delivered, old(k).delivered.len() as int, k.delivered.len() as int, p) == '
                                   '(if ws.0 == p && ws.1 != 255 { ws.1 != 3 } else { settled_at(k.delivered, old(k).delivered.len() as int, __d0.len() as int, p) }) by { }',
            'after-text:if settled.len() >= count_child {': 'lemma_all_members(settled@, pids@);',
@@ -367,12 +451,45 @@ wait_fg_job = Fn(J, 'wait_fg_job', ret='r', rewrites=RW,
     let_types={},
 )
 
+try_wait_bg_jobs = Fn(J, 'try_wait_bg_jobs', rewrites=RW,
+    pre_rewrites=[
+        Rw('sh.jobs.is_empty()', 'vx_jobs_is_empty(&sh.jobs)', rule='R12'),
+        Rw('signals::handle_sigchld(Signal::SIGCHLD as i32);', 'handle_sigchld(Tracked(k));', rule='R8', why='the SIGCHLD handler body (waitpid WNOHANG loop into the four maps): external, any additions'),
+        Rw('sh.jobs.clone()', 'vx_clone_jobs(&sh.jobs)', rule='R7'),
+        Rw('for (_i, job) in jobs.iter() {', 'let __jv = vx_job_values(&jobs); for job in __jv.iter() {', rule='R12', why='HashMap iteration through a snapshot shim: every entry once, unspecified order'),
+        Rw(r'let reason = if sig == Signal::SIGQUIT[\s\S]*?\};', 'let reason = vx_reason(sig);', regex=True, rule='R3', why='the text of the end-of-job report (format!): opaque'),
+        Rw(r'signals::(pop_reap_map|killed_map_pop|pop_stopped_map|pop_cont_map)\(', r'\1(', regex=True, rule='R0'),
+    ],
+    add_params='Tracked(k): Tracked<&mut Kernel>, Ghost(k1): Ghost<Kernel>',
+    ghost_args={'pop_reap_map': 'Tracked(k)', 'killed_map_pop': 'Tracked(k)', 'pop_stopped_map': 'Tracked(k)', 'pop_cont_map': 'Tracked(k)'},
+    requires=[('C06.pre.wf', 'wf(old(sh).jobs@)')],
+    ensures=[('C06+C07.poll.wf', 'wf(final(sh).jobs@)'),
+             # no status change of a background process is left unread: every member of every job of the table is looked at in one poll
+             ('C06+C07.poll.every_member_of_every_job_is_looked_at',
+              'old(sh).jobs@.dom().len() == 0 || exists|km: Kernel| shrunk(km, *final(k)) && forall|x: i32, i: int| old(sh).jobs@.contains_key(x) && 0 <= i < old(sh).jobs@[x].pids@.len() '
+              '==> #[trigger] looked_at(km, *final(k), old(sh).jobs@[x].pids@[i] as int)')],
+    loops={
+        0: Loop(invariant=[
+            ('C06+C07.inv.poll.wf', 'wf(sh.jobs@) && jobs@ == old(sh).jobs@ && shrunk(__km, *k)'),
+            ('C06+C07.inv.poll.jobs_done', 'forall|a: int, i: int| 0 <= a < __i0 && 0 <= i < __jv@[a].pids@.len() ==> #[trigger] looked_at(__km, *k, __jv@[a].pids@[i] as int)'),
+        ]),
+        1: Loop(invariant=[
+            ('C06+C07.inv.poll.wf2', 'wf(sh.jobs@) && shrunk(__km, *k) && 1 <= __i0 <= __jv@.len() && *job == __jv@[__i0 - 1]'),
+            ('C06+C07.inv.poll.jobs_done2', 'forall|a: int, i: int| 0 <= a < __i0 - 1 && 0 <= i < __jv@[a].pids@.len() ==> #[trigger] looked_at(__km, *k, __jv@[a].pids@[i] as int)'),
+            ('C06+C07.inv.poll.members_done', 'forall|i: int| 0 <= i < __i1 ==> #[trigger] looked_at(__km, *k, job.pids@[i] as int)'),
+        ]),
+    },
+    hints={'before-text:let jobs = vx_clone_jobs(&sh.jobs);': 'RAW: let ghost __km = *k;',
+           # entries are only taken out during the poll, so a member that was looked at stays looked at
+           'loop-1-body-entry': 'RAW: let ghost __kb = *k; proof { assert forall|kb: Kernel, p: int| shrunk(__kb, kb) && looked_at(__km, __kb, p) implies #[trigger] looked_at(__km, kb, p) by { } }',
+           'loop-0-body-entry': 'RAW: let ghost __ka = *k; proof { assert forall|kb: Kernel, p: int| shrunk(__ka, kb) && looked_at(__km, __ka, p) implies #[trigger] looked_at(__km, kb, p) by { } }'},
+)
 UNIT = Unit('U-WAIT', TEMPLATE,
     fns=[ext(u_jobs.all_members_stopped), ext(u_jobs.all_members_running), ext(u_jobs.get_job_by_gid), ext(u_jobs.mark_job_member_continued),
          ext(u_jobs.mark_job_member_stopped), ext(u_jobs.mark_job_as_running), ext(u_jobs.mark_job_as_stopped), ext(u_jobs.remove_pid_from_job)]
         + WS_FNS + [mark_job_as_done, jc_stopped, jc_member_stopped, jc_member_continued, jc_running,
            Fn(T, 'new', impl='CommandResult', ret='r', ensures=[('C02.cr.new', 'r.status == 0 && r.gid == 0')]),
-           Fn(T, 'from_status', impl='CommandResult', ret='r', ensures=[('C02+C03.cr.from_status', 'r.status == status && r.gid == gid')]), wait_fg_job],
+           Fn(T, 'from_status', impl='CommandResult', ret='r', ensures=[('C02+C03.cr.from_status', 'r.status == status && r.gid == gid')]), wait_fg_job, try_wait_bg_jobs],
     types=[TypeItem(T, 'struct', 'WaitStatus', rewrites=[Rw('WaitStatus(i32, i32, i32)', 'WaitStatus(pub i32, pub i32, pub i32)', rule='R13', why='field visibility only (single-module unit file)')]), TypeItem(T, 'struct', 'Job'), TypeItem(T, 'struct', 'CommandResult'),
            TypeItem('src/shell.rs', 'struct', 'Shell', rewrites=[Rw('types::Job', 'Job', rule='R0')])],
     props=('C06', 'C02', 'C05'))
